@@ -316,6 +316,14 @@ class Builder:
       return pg.List([self.build(shape[1]), self.build(shape[2])])
     if k == 'tuple':
       return (self.build(shape[1]),)
+    if k == 'pdict1':
+      return {self.datum('key'): self.build(shape[1])}
+    if k == 'pdict2':
+      return {self.datum('key'): self.build(shape[1]), self.datum('key'): self.build(shape[2])}
+    if k == 'plist1':
+      return [self.build(shape[1])]
+    if k == 'plist2':
+      return [self.build(shape[1]), self.build(shape[2])]
     if k == 'obj':
       cls = self.make_class()
       return cls(fx=self.build(shape[1]), fy=self.build(shape[2]))
@@ -335,11 +343,11 @@ class Builder:
 
 
 def first_key(value) -> Optional[Any]:
-  if isinstance(value, pg.Dict):
+  if isinstance(value, dict):          # pg.Dict and plain dict
     return next(iter(value.keys()), None)
   if isinstance(value, pg.Object):
     return 'fx'
-  if isinstance(value, (pg.List, tuple)) and len(value):
+  if isinstance(value, (list, tuple)) and len(value):
     return 0
   return None
 
@@ -356,13 +364,27 @@ def render_kwargs(opts: Dict[str, Any], value: Any, b: Builder) -> Tuple[Dict[st
   }
   excluded = None
   fk = first_key(value)
-  is_map = isinstance(value, (pg.Dict, pg.Object))
-  if opts['keys_filter'] == 'include_first' and is_map and fk is not None:
-    kw['include_keys'] = [fk]
-    excluded = ('all_but', fk)
-  elif opts['keys_filter'] == 'exclude_first' and is_map and fk is not None:
-    kw['exclude_keys'] = [fk]
-    excluded = ('only', fk)
+  is_map = isinstance(value, (dict, pg.Object))
+  kf = opts['keys_filter']
+  missing = 'zq999x_no_such_key'
+  if is_map and fk is not None:
+    if kf == 'include_first':
+      kw['include_keys'] = [fk]
+      excluded = ('all_but', fk)
+    elif kf == 'include_first_and_missing':
+      kw['include_keys'] = [fk, missing]
+      excluded = ('all_but', fk)
+    elif kf == 'include_first_callable':
+      kw['include_keys'] = lambda path, v, parent, _k=fk: path.depth != 1 or path.key == _k
+      excluded = ('all_but', fk)
+    elif kf == 'exclude_first':
+      kw['exclude_keys'] = [fk]
+      excluded = ('only', fk)
+    elif kf == 'exclude_missing':
+      kw['exclude_keys'] = [missing]
+    elif kf == 'exclude_first_callable':
+      kw['exclude_keys'] = lambda path, v, parent, _k=fk: path.depth == 1 and path.key == _k
+      excluded = ('only', fk)
   if opts['uncollapse_first'] and fk is not None:
     kw['uncollapse'] = pg.KeyPathSet([pg.KeyPath([fk])])
   if opts['root_name']:
@@ -383,18 +405,18 @@ def visible_sentinels(value: Any, excluded, b: Builder) -> List[str]:
   def walk(v, top):
     if isinstance(v, str):
       out.append(sent(v))
-    elif isinstance(v, (pg.Dict, pg.Object)):
+    elif isinstance(v, (dict, pg.Object)):
       items = list(v.sym_items()) if isinstance(v, pg.Object) else list(v.items())
       for k, c in items:
         if top and excluded is not None:
           mode, key = excluded
           if (mode == 'only' and k == key) or (mode == 'all_but' and k != key):
             continue
-        if isinstance(v, pg.Dict):
+        if isinstance(v, dict):
           out.append(sent(k))
           KEY_VALUE_KIND[sent(k)] = type(c).__name__
         walk(c, False)
-    elif isinstance(v, (pg.List, tuple, list)):
+    elif isinstance(v, (tuple, list)):
       for c in v:
         walk(c, False)
   walk(value, True)
@@ -430,3 +452,95 @@ def _nearest_role(evs, k, roles):
 
 def for_tlc(evs: List[Dict[str, Any]]) -> List[Dict[str, Any]]:
   return [{k: v for k, v in e.items() if not k.startswith('_')} for e in evs]
+
+
+def snapshot(v, depth=0):
+  """Deep structural snapshot of a value: plain and symbolic containers alike (purity of rendering)."""
+  if depth > 12:
+    return '...'
+  if isinstance(v, pg.Object):
+    return ('obj', type(v).__name__, tuple((k, snapshot(c, depth + 1)) for k, c in v.sym_items()))
+  if isinstance(v, dict):
+    return (type(v).__name__, tuple((k, snapshot(c, depth + 1)) for k, c in v.items()))
+  if isinstance(v, (list, tuple)):
+    return (type(v).__name__, tuple(snapshot(c, depth + 1) for c in v))
+  return ('leaf', type(v).__name__, repr(v))
+
+
+# ---------------------------------------------------------------------------------------------
+# The shipped HTML controls
+
+def build_control(rec: Dict[str, Any], b: Builder):
+  """(object to render, texts that must be present) for one record of HtmlGen.Controls.
+
+  Label texts / tab contents given as str are HTML content by the controls' own documentation
+  ("the text or HTML content"), so they carry no metacharacters; a Tooltip's str content is data
+  (the control escapes it) and carries the document's metacharacter class."""
+  from pyglove.core.views.html import Html               # pylint: disable=import-outside-toplevel
+  from pyglove.core.views.html import controls as C      # pylint: disable=import-outside-toplevel
+  n = [0]
+
+  def text(prefix):
+    n[0] += 1
+    return f'{prefix}{n[0]}txt'
+  expect: List[str] = []
+
+  def label(cls=C.Label, tooltip=0, link=0, interactive=0, styled=0):
+    t = text('label')
+    expect.append(t)
+    kw: Dict[str, Any] = {}
+    if tooltip:
+      d = b.datum('str')
+      expect.append(d)
+      kw['tooltip'] = d
+    if link:
+      kw['link'] = 'http://example.com/x'
+      kw['target'] = '_blank'
+    if styled:
+      kw['css_classes'] = ['c1', 'c2']
+      kw['styles'] = dict(color='red', font_weight='bold')
+    if interactive:
+      kw['interactive'] = True
+    return cls(t, **kw)
+
+  k, p1, p2, p3, p4 = rec['ctl'], rec['p1'], rec['p2'], rec['p3'], rec['p4']
+  if k == 'tab':
+    tabs = []
+    for i in range(p2):
+      lt = text('tab')
+      expect.append(lt)
+      if p4 == 0:
+        content = text('content')
+        expect.append(content)
+      elif p4 == 1:
+        d = b.datum('str')
+        expect.append(d)
+        content = pg.Dict(v=d)
+      else:
+        content = label(tooltip=1)
+      tabs.append(C.Tab(lt, content, name=f'name{i}' if i % 2 else None))
+    ctl = C.TabControl(tabs, selected=p3, tab_position='left' if p1 else 'top')
+  elif k in ('label', 'badge'):
+    ctl = label(C.Label if k == 'label' else C.Badge, p1, p2, p3, p4)
+  elif k == 'labelgroup':
+    ctl = C.LabelGroup([label(tooltip=i % 2) for i in range(p1)], name=label() if p2 else None,
+                       **({'interactive': True} if p3 else {}))
+  elif k == 'tooltip':
+    if p1:
+      t = text('tip')
+      expect.append(t)
+      content = Html.element('b', [t])
+    else:
+      content = b.datum('str')
+      expect.append(content)
+    ctl = C.Tooltip(content, for_element='.x', **({'interactive': True} if p2 else {}))
+  elif k == 'progress':
+    subs = [C.SubProgress(f'sub{i}', value=i + 1) for i in range(p1)]
+    ctl = C.ProgressBar(subs, total=10 if p2 else None, **({'interactive': True} if p3 else {}))
+  else:
+    raise ValueError(k)
+  if rec['wrap'] == 1:
+    return pg.Dict(ctl=ctl), expect
+  if rec['wrap'] == 2:
+    return [ctl], expect
+  return ctl, expect
